@@ -1,11 +1,12 @@
 #!/bin/bash
-# usage: confirm_seeded.sh <id>   (worktree /tmp/mut/wt_<id>, artifacts /tmp/mut/<id>)
+# usage: confirm_seeded.sh <id>   (worktree /tmp/mut/wt_<id>, artifacts /tmp/mut/<id>); no `git stash` (stashes are shared between worktrees)
 id=$1
 cd /tmp/mut/wt_$id || exit 1
 git diff | diff -q - /tmp/mut/$id/patch.diff || echo "PATCH DIFFERS FROM WORKTREE"
 [ -f /tmp/mut/$id/junit.xml ] && /venv/bin/python /tmp/mut/cmp.py /tmp/mut/$id/junit.xml | head -1
 (BCL_DATA_DIR=$(mktemp -d /tmp/mut/$id/bcl.XXXX) /venv/bin/python /tmp/mut/$id/demo.py > /tmp/mut/$id/demo_changed.out 2>&1; echo "changed exit $?")
-git stash -q
+git apply -R /tmp/mut/$id/patch.diff || echo "REVERSE APPLY FAILED"
+[ -z "$(git status --porcelain --untracked-files=no)" ] || echo "TREE NOT CLEAN AFTER REVERT"
 (BCL_DATA_DIR=$(mktemp -d /tmp/mut/$id/bcl.XXXX) /venv/bin/python /tmp/mut/$id/demo.py > /tmp/mut/$id/demo_orig.out 2>&1; echo "orig exit $?")
-git stash pop -q
+git apply /tmp/mut/$id/patch.diff
 rm -rf /tmp/mut/$id/bcl.*
